@@ -568,7 +568,12 @@ def r_seed_roots(ctx, tv, rule='S6-ROOTS'):
         has_roots = any(s[0] == 'field' and s[2] == 'roots' for s in walk(a)) and any(s[0] == 'call' and s[1].endswith('::iter') for s in walk(a))
         has_tree = any(s[0] == 'fn' and s[1].endswith('NodeId::tree') for s in walk(a))
         has_inf = any(s[0] == 'const' and s[2] == F32_INF_BITS for s in walk(a))
-        good = has_roots and has_tree and has_inf and f.dominates(c.bb, tv._loop_header())
+        # element-preserving adaptors only: anything that can drop a root (take/skip/filter/step_by ...) is not a full seeding
+        KEEP_ALL = ('Iterator::map', 'Iterator::zip', 'Iterator::copied', 'Iterator::cloned', 'IntoIterator::into_iter', '::iter', 'iter::repeat', 'iter::repeat_n',
+                    'Iterator::rev', 'Iterator::inspect', 'Iterator::by_ref', 'Iterator::enumerate', 'Deref::deref')
+        adaptors = [s[1] for s in walk(a) if s[0] == 'call' and ('Iterator::' in s[1] or 'iter::' in s[1])]
+        lossy = [short(n) for n in adaptors if not n.endswith(KEEP_ALL)]
+        good = has_roots and has_tree and has_inf and not lossy and f.dominates(c.bb, tv._loop_header())
     ctx.check(good, rule, f.path + '/all-roots', ext[0].loc() if ext else f.loc(), 'every root is seeded as NodeId::tree(root) with priority +inf before the loop',
               'the traversal of `%s` is not seeded with every root of the index (as tree nodes, priority +inf)' % f.path)
     # max-heap on (OrderedFloat<f32>, NodeId), no Reverse
